@@ -78,11 +78,13 @@ def families(tier, seed):
         shf = Shape(sys={k: 'bool' for k in ('i0', 'i1', 'o0', 'o1')}, name='2 in 2 out')
         out.append(dict(name=f'back-end sweep [{tag}] make_functions',
                         run=harness.sweep(cfn.h_make_functions, shf, dict(inputs=['i0', 'i1'], vrs=['o0', 'o1']), 'context', seed, 4 * ns, be), label='bounded'))
-    nseq = 8 if tier == 'quick' else 100
+    for be in ('cudd', 'autoref'):
+        out.append(dict(name=f'copied automaton keeps its own operator definitions [{be}]', run=hc.copy_isolation(be), label='bounded'))
+    nseq = 16 if tier == 'quick' else 200
     for be in ('cudd', 'autoref'):
         out.append(dict(name=f'history sequences [{be}]', run=hc.history_sequences(seed, nseq, be), label='bounded'))
     return out
 
 
 def coverage_extra(results):
-    return dict(bounded_parameters=dict(history='8 sequences x 14 operations per back end quick, 100 thorough', ddcheck='10 x 40 operations quick, 120 x 40 thorough'))
+    return dict(bounded_parameters=dict(history='16 sequences x 14 operations per back end quick, 200 thorough (incl. node references to earlier BDDs and simultaneous renamings); automaton copies: all ordered pairs of 6 definitions x 2 orders', ddcheck='10 x 40 operations quick, 120 x 40 thorough'))
